@@ -346,6 +346,20 @@ func runHistory(c *hx.Ctx, k int, r *rand.Rand, proto string) (classes []string,
 				return
 			}
 			_ = before
+			// an application retrying the very same set object must be refused again
+			for retry := 0; retry < r.IntN(3); retry++ {
+				n2, err2 := s.EP.SendSet(set)
+				c.Add("retries_of_refused_sets", 1)
+				if err2 == nil {
+					raw, _ := s.Take(n2, wait)
+					c.Violation(k, "accepted-on-retry:"+class, fmt.Sprintf("send %d (%s) was refused, but sending the same set again returned success and wrote %d bytes", i, class, len(raw)), map[string]any{"sends": classes, "written_head": fmt.Sprintf("%x", raw[:min(len(raw), 96)])})
+					return
+				}
+				if n2 != 0 {
+					c.Violation(k, "refused-but-bytes-reported", fmt.Sprintf("retry of send %d (%s): error but %d bytes reported", i, class, n2), classes)
+					return
+				}
+			}
 			if !sendMarker() {
 				return
 			}
